@@ -125,6 +125,26 @@ Definition obv : list kc -> list Qc :=
                                (Some (k_c k, acc'), acc')
            end) None.
 
+(* money flow index: typical price * volume counted as positive (negative) flow when the typical price rose (fell) against the previous
+   candle, the first candle has no flow; 100 - 100 / (1 + sum of positive flows / sum of negative flows) over the last p candles
+   (100 when no negative flow), first value at index p-1 (jesse/indicators/mfi.py) *)
+Definition mfi (p : nat) : list kc -> series :=
+  mealy (fun (st : option Qc * list (Qc * Qc)) k =>
+           let tp := (k_h k + k_l k + k_c k) / qofnat 3 in
+           let rmf := tp * k_v k in
+           let fl := match fst st with
+                     | None => (0, 0)
+                     | Some ptp => (if qltb ptp tp then rmf else 0, if qltb tp ptp then rmf else 0)
+                     end in
+           let buf := lastn p (snd st ++ [fl]) in
+           ((Some tp, buf), if Nat.ltb (length buf) p then None else Some (rsi_value (qsum (map fst buf)) (qsum (map snd buf))))) (None, []).
+
+(* Keltner channel with the default moving average (EMA of the close) and Wilder's ATR of the same period (jesse/indicators/keltner.py) *)
+Definition opt2 (f : Qc -> Qc -> Qc) (a b : option Qc) : option Qc := match a, b with Some x, Some y => Some (f x y) | _, _ => None end.
+Definition keltner_middle (p : nat) (ks : list kc) : series := ema p (map k_c ks).
+Definition keltner_upper (p : nat) (m : Qc) (ks : list kc) : series := map2 (opt2 (fun e a => e + a * m)) (ema p (map k_c ks)) (atr p ks).
+Definition keltner_lower (p : nat) (m : Qc) (ks : list kc) : series := map2 (opt2 (fun e a => e - a * m)) (ema p (map k_c ks)) (atr p ks).
+
 (* ---------------------------------------------------------------- the shape of every public indicator function (C14) *)
 (* `candles = slice_candles(candles, sequential)`; res = F(candles); `return res if sequential else res[-1]` *)
 Definition slice_candles {A} (warmup : nat) (sequential : bool) (cs : list A) : list A :=
